@@ -48,6 +48,7 @@ pub fn sched_from(v: &Value) -> Result<Sched, String> {
 pub fn case_to(c: &Case) -> Value {
     json!({
         "command": c.input.mode.name(),
+        "trailing_newline": c.input.trailing_newline,
         "input_files": c.input.files.iter().map(|f| f.iter().map(|(k, v)| json!([k, v])).collect::<Vec<_>>()).collect::<Vec<_>>(),
         "runs": c.runs.iter().map(|r| json!({
             "batch_size": r.batch_size, "fd_limit": r.fd_limit, "threads": r.threads,
@@ -75,5 +76,9 @@ pub fn case_from(v: &Value) -> Result<Case, String> {
             sched: sched_from(&r["schedule"])?,
         });
     }
-    Ok(Case { input: Input { mode, files }, runs })
+    let trailing_newline = v["trailing_newline"]
+        .as_array()
+        .map(|a| a.iter().map(|x| x.as_bool().unwrap_or(true)).collect())
+        .unwrap_or_default();
+    Ok(Case { input: Input { mode, files, trailing_newline }, runs })
 }
